@@ -12,7 +12,7 @@ Three ties, all evaluated inside Coq (vm_compute) on the implementation's real o
 Known finding (open, recorded): class K_ctx (method mask contains CONTEXT_ADDITION): a result keeps
 every host node and the ROOT of the inserted tree but not the inserted tree itself
 (`inserted_lossyb` holds, `insertedb` does not)."""
-import json, os, random, collections
+import json, os, random, collections, re
 import lib
 from lib import g_str, g_tree, g_path, g_nat, g_grammar, g_list
 from grammar_graph.gg import GrammarGraph
@@ -475,6 +475,55 @@ def run(run):
         run.violation({"kind": "correspondence-not-evaluable", "obligation": "Insert.v insert_tree cases",
                        "error": str(e)[-2000:]}, found_input=False)
     _pool.shutdown()
+
+    # ---- 3b. premises of the totality theorems (Props/C13.v C13_insert_tree_total_tbl / _full_*) ----
+    # oracle premises (closed_g, chain_ok, chain_start, chain_conn, pb_ok): evaluated in Coq by the verified
+    # decider `oracle_okb` on the tables read off the real GrammarGraph of every grammar of the pool;
+    # per-call premises (valid host / ins, unique ids, none of them 0): evaluated here.
+    oe = Enc()
+    odefs, oexprs = "", []
+    for k, gname in enumerate(GRAMMARS):
+        ch, pb = tables[gname]
+        gl = "[" + "; ".join(
+            f"({oe.sym(a)}, {g_list(alts, lambda x: g_list(x, oe.sym) if x else '(@nil str)')})"
+            for a, alts in CANON[gname].items()) + "]"
+        cts = "; ".join(f"({oe.sym(a)}, {oe.sym(b)}, {g_list(c, oe.sym)})" for a, b, c in ch)
+        pts = "; ".join(f"({oe.sym(a)}, {oe.sym(b)}, {g_list(ps, lambda q: g_list(q, oe.sym))})" for a, b, ps in pb)
+        odefs += (f"Definition G{k} : grammar := {gl}.\n"
+                  f"Definition CT{k} : list (str * str * list str) := [{cts}].\n"
+                  f"Definition PT{k} : list (str * str * list (list str)) := [{pts}].\n")
+        oexprs.append(f"oracle_okb G{k} CT{k} PT{k}")
+    oracle = {}
+    try:
+        out = lib.coq_eval("c13o", "Insert InsertFacts InsertTotalMore", "[" + "; ".join(oexprs) + "]",
+                           oe.text() + odefs)
+        mo = re.search(r"=\s*(\[[^\]]*\])\s*:\s*list bool", out)
+        vals = re.findall(r"\b(true|false)\b", mo.group(1)) if mo else []
+        if len(vals) != len(GRAMMARS):
+            raise RuntimeError(out[-1500:])
+        oracle = {g: v == "true" for g, v in zip(GRAMMARS, vals)}
+    except RuntimeError as ex:
+        run.violation({"kind": "oracle premises not evaluable", "error": str(ex)[-1500:],
+                       "obligation": "InsertTotalMore.oracle_okb on the real GrammarGraph tables"}, found_input=False)
+    run.cov["oracle_premises_hold"] = oracle
+    bad_or = [g for g, v in oracle.items() if not v]
+    if bad_or:
+        run.violation({"kind": "an oracle premise of C13_insert_tree_total (closed_g / chain_ok / chain_start / chain_conn / "
+                               "pb_ok) is false for the real GrammarGraph", "grammars": bad_or,
+                       "obligation": "premises of Props/C13.v C13_insert_tree_total_tbl hold for the implementation's graph"},
+                      found_input=False)
+    inside = inside_ok = 0
+    for recs in by_grammar.values():
+        for rec in recs:
+            ids_ = [s_.id for t_ in (rec["host"], rec["ins"]) for _, s_ in t_.paths()]
+            prem = (oracle.get(rec["g"], False) and wf(CANON[rec["g"]], rec["host"]) and wf(CANON[rec["g"]], rec["ins"])
+                    and len(set(ids_)) == len(ids_) and all(i_ >= 1 for i_ in ids_))
+            for m, o in rec["outs"].items():
+                if prem:
+                    inside += 1
+                    inside_ok += o[0] == "ok"
+    run.cov["calls_inside_premises_of_total_theorem"] = inside
+    run.cov["of_which_returned_a_list"] = inside_ok   # a call that raised is reported as VIOLATION below
 
     # ---- 4. classify ----
     def witness(m, rec, extra=None):
